@@ -54,6 +54,7 @@ func runRelay(r *core.Run) {
 		if c.Prob(1, 10) {
 			opt.MaxDests = 100
 		}
+		opt.Shape = c.Pick(10, 1, 1)
 		m := spec.Gen(c, pd, opt)
 		it := item{pd: pd}
 		switch c.Pick(4, 3, 5) {
